@@ -205,6 +205,9 @@ class Ctx:
         self.prop, self.tier, self.seed = prop, tier, seed
         self.t0 = time.time()
         self.scratch = tempfile.mkdtemp(prefix="verif_%s_" % prop)
+        # everything the harness processes create (replica data directories, copies made for crash variants, go's
+        # work directories) goes below the scratch directory, which is removed when the evidence has been written
+        os.environ["TMPDIR"] = self.scratch
         self.lines = []          # KNOWN-FINDING / VIOLATION lines
         self.violations = 0
         self.coverage = {}
